@@ -10,10 +10,18 @@ use num_bigint::{BigInt, Sign};
 pub struct C09P;
 pub static C09: C09P = C09P;
 
-pub const ALPHABET: [&str; 32] = [
+pub const ALPHABET: [&str; 34] = [
     "a", "i", "f", "é", "\u{1d465}", "0", "9", "_", "*", ":", "(", ")", "{", "}", "+", "/", ";", "-", "<", "=", ">", "#", "\n", " ", "\t", "\r",
-    "\u{a0}", "\u{3000}", "$", "€", "\u{301}", "\u{663}",
+    "\u{a0}", "\u{3000}", "$", "€", "\u{301}", "\u{663}", "\u{feff}", "\u{1f1fa}",
 ];
+
+// Symbols whose grapheme-cluster boundaries depend on what precedes them (regional indicators,
+// zero-width joiner sequences, variation selectors and modifiers, a virama between consonants,
+// conjoining Hangul jamo, a prepending mark, CR LF) plus a letter and an illegal symbol.
+pub const CLUSTER: [&str; 14] = [
+    "\u{1f1fa}", "\u{1f1f8}", "\u{200d}", "\u{1f468}", "\u{fe0f}", "\u{1f3fd}", "\u{915}", "\u{94d}", "\u{1100}", "\u{1161}", "\u{600}", "\r", "\n", "$",
+];
+const CLUSTER_PREFIXES: [&str; 5] = ["", "y = 2 ", "é", "# ", "\u{301}"];
 
 const BLOCK: u64 = 4096;
 
@@ -56,10 +64,11 @@ impl Prop for C09P {
                 sec("pinned", 64),
                 sec_ex("exhaustive-strings", total.div_ceil(BLOCK)),
                 sec_ex("keyword-edits", 8),
+                sec_ex("grapheme-sequences", enum_total(CLUSTER.len() as u64, tier.pick(3, 4)).div_ceil(BLOCK)),
                 sec("random-texts", tier.pick(30_000, 600_000)),
                 sec("long-literals", tier.pick(300, 3_000)),
             ],
-            "every string of at most L symbols over a 32-symbol alphabet covering each token-forming character class (L=4 quick, 5 thorough; one case = a block of 4096 consecutive strings), every keyword under every one-symbol insertion/substitution, random texts of 5-400 symbols, digit runs of 1-5000 digits; non-trivial = distinct text that produced at least two tokens or at least one diagnostic",
+            "every string of at most L symbols over a 34-symbol alphabet covering each token-forming character class, a byte order mark and a regional indicator (L=4 quick, 5 thorough; one case = a block of 4096 consecutive strings), every string of at most 3 (quick) / 4 (thorough) symbols over 14 symbols whose grapheme-cluster boundaries depend on their predecessors, after each of 5 prefixes, every keyword under every one-symbol insertion/substitution, random texts of 5-400 symbols, digit runs of 1-5000 digits; non-trivial = distinct text that produced at least two tokens or at least one diagnostic",
         );
         p.assumptions = vec![
             "Rust's char::is_alphabetic/is_alphanumeric/is_whitespace and unicode-segmentation's grapheme boundaries are trusted".into(),
@@ -87,6 +96,19 @@ impl Prop for C09P {
                     check_text(ctx, &s);
                 }
                 ctx.max("exhaustive_max_symbols", u64::from(l));
+            }
+            "grapheme-sequences" => {
+                let l = ctx.tier.pick(3, 4);
+                let total = enum_total(CLUSTER.len() as u64, l);
+                let lo = idx * BLOCK;
+                let hi = (lo + BLOCK).min(total);
+                for i in lo..hi {
+                    let s = enum_string(&CLUSTER, i, l);
+                    for p in CLUSTER_PREFIXES {
+                        check_text(ctx, &format!("{p}{s}"));
+                        check_text(ctx, &format!("{p}{s} x"));
+                    }
+                }
             }
             "keyword-edits" => {
                 let kw = ["bool", "else", "false", "if", "int", "then", "true", "type"][idx as usize];
@@ -180,10 +202,11 @@ fn pinned() -> Vec<String> {
 }
 
 pub fn random_text(r: &mut Rng) -> String {
-    const PIECES: [&str; 60] = [
+    const PIECES: [&str; 70] = [
         "a", "x", "foo", "é", "\u{1d465}", "_", "_x", "x_1", "iff", "int2", "type_", "bool", "else", "false", "if", "int", "then", "true", "type",
         "0", "7", "42", "007", "*", ":", "(", ")", "{", "}", "+", "/", ";", "-", "->", "<", "<=", "=", "==", "=>", ">", ">=", "#", "# c", "#é",
         "#\u{1d465}", "\n", "\n\n", " ", "  ", "\t", "\r", "\r\n", "\u{a0}", "\u{3000}", "\u{2028}", "$", "€", "\u{301}", "\u{663}", "\u{1f600}",
+        "\u{1f1fa}\u{1f1f8}", "\u{1f468}\u{200d}\u{1f469}", "\u{915}\u{94d}\u{937}", "\u{feff}", "\u{1100}\u{1161}", "\u{fe0f}", "\u{600}", "\u{b}", "\u{c}", "\u{85}",
     ];
     let cap = if r.chance(1, 8) { 396 } else { 40 };
     let n = 5 + r.usize(cap);
